@@ -7,7 +7,9 @@ OWN = {'ret', 'log', 'loop'}
 def run(res):
     th = res.tier == 'thorough'
     # time accounting across switches, quits and errors at every site, restarts of the same loop object.
-    K = lc.consts(MaxFrames=4 if th else 3, Sites={'p1', 'upd', 'co', 'p2'} if th else {'p1', 'p2'},
+    # (thorough: all four request sites; runs longer than three frames are covered by the simulated behaviours below -
+    # four frames at four sites cost half an hour of replay for no new kind of behaviour)
+    K = lc.consts(MaxFrames=3, Sites={'p1', 'upd', 'co', 'p2'} if th else {'p1', 'p2'},
                   Reqs={'nop', 'switch', 'raise', 'quit', 'quit_loop', 'quitto', 'clrquit', 'error', 'qlerr', 'direct'}, Hs={'A', 'B'})
     lc.check_and_replay(res, 'c14_time', K, lc.INV, lc.PROPS_C14, own=OWN, walks=3000 if th else 1000, walk_len=10)
     lc.simulate_and_replay(res, 'c14_simulated', 1500 if th else 250, 30, own=OWN)
